@@ -285,8 +285,22 @@ func runC02R6(c *Ctx, r *Rep) {
 		return
 	}
 	step := ""
+	loopVar := ""
 	if as, ok := loop.Post.(*ast.AssignStmt); ok && as.Tok == token.ADD_ASSIGN {
 		step = exprStr(as.Rhs[0])
+		loopVar = exprStr(as.Lhs[0])
+	} else if loop.Post == nil {
+		// a while-style loop: the counter is the variable compared in the condition and stepped in the body
+		if be, ok := loop.Cond.(*ast.BinaryExpr); ok {
+			cv := exprStr(be.X)
+			ast.Inspect(loop.Body, func(n ast.Node) bool {
+				if as, ok := n.(*ast.AssignStmt); ok && as.Tok == token.ADD_ASSIGN && len(as.Lhs) == 1 && exprStr(as.Lhs[0]) == cv {
+					step = exprStr(as.Rhs[0])
+					loopVar = cv
+				}
+				return true
+			})
+		}
 	}
 	r.check(step == "2", "py|(*Code).Addr2Line|pair step", loop.Pos(), "table consumed two bytes at a time", "the line table is not consumed in steps of 2 (step "+step+")")
 	// the two accumulations
@@ -327,8 +341,7 @@ func runC02R6(c *Ctx, r *Rep) {
 		r.undecided("py|(*Code).Addr2Line|accumulations", loop.Pos(), "expected two `x += …Lnotab[…]` accumulations, found %d", len(accs))
 		return
 	}
-	loopVar := ""
-	if as, ok := loop.Init.(*ast.AssignStmt); ok {
+	if as, ok := loop.Init.(*ast.AssignStmt); ok && loopVar == "" {
 		loopVar = exprStr(as.Lhs[0])
 	}
 	for _, a := range accs {
@@ -370,8 +383,11 @@ func runC02R6(c *Ctx, r *Rep) {
 	thr := 0
 	ast.Inspect(wr.Body, func(nn ast.Node) bool {
 		if f, ok := nn.(*ast.ForStmt); ok && f.Cond != nil {
-			if be, ok := f.Cond.(*ast.BinaryExpr); ok && be.Op == token.GTR && exprStr(be.Y) == "255" {
-				thr++
+			if be, ok := f.Cond.(*ast.BinaryExpr); ok && be.Op == token.GTR {
+				// the bound by value: the literal or a named constant
+				if tv, ok := cp.TypesInfo.Types[be.Y]; ok && tv.Value != nil && tv.Value.ExactString() == "255" {
+					thr++
+				}
 			}
 		}
 		return true
